@@ -24,6 +24,8 @@ VARIABLE row
 TyOf(v) == CASE v.k = "int" -> WInt [] v.k = "bool" -> WBool [] v.k = "float" -> WFloat
              [] v.k = "string" -> WStr [] v.k = "array" -> WArr(WInt)
 Arg(v, lit) == IF lit THEN Lit(v) ELSE Hide(TyOf(v), Lit(v))
+\* hidden AND effectful: a tick call (opaque to the optimiser, logs its position number)
+ArgT(v, lit, i) == IF lit THEN Lit(v) ELSE Tick(i, TyOf(v), Lit(v))
 ArrLit(xs) == [k |-> "array", tag |-> TInt, es |-> [i \in 1..Len(xs) |-> IntV(xs[i])]]
 
 \* does `a op b' fail whenever evaluated, and how
@@ -46,54 +48,61 @@ IsCmp(op) == op \in {"==", "!=", "<", "<=", ">", ">="}
 
 BinInsts ==
   {Inst("bin" \o op \o ToString(p[1]) \o "," \o ToString(p[2]) \o "-" \o MaskStr(m),
-        Bin(op, Arg(IntV(p[1]), m[1]), Arg(IntV(p[2]), m[2])), IF IsCmp(op) THEN WBool ELSE WInt,
+        Bin(op, ArgT(IntV(p[1]), m[1], 1), ArgT(IntV(p[2]), m[2], 2)), IF IsCmp(op) THEN WBool ELSE WInt,
         \* the deciding operand of / % << >> ** is the right one
         IF m[2] /\ FailKind(op, IntV(p[1]), IntV(p[2])) # "none" THEN {FailKind(op, IntV(p[1]), IntV(p[2]))} ELSE {})
      : op \in IntOps, p \in IntPairs, m \in Masks(2)}
 
 FloatInsts ==
-  {Inst("fbin" \o op \o "-" \o MaskStr(m), Bin(op, Arg(FloatV(3), m[1]), Arg(FloatV(-1), m[2])), IF IsCmp(op) THEN WBool ELSE WFloat, {})
+  {Inst("fbin" \o op \o "-" \o MaskStr(m), Bin(op, ArgT(FloatV(3), m[1], 1), ArgT(FloatV(-1), m[2], 2)), IF IsCmp(op) THEN WBool ELSE WFloat, {})
      : op \in {"+", "-", "<", ">=", "=="}, m \in Masks(2)}
-  \cup {Inst("sbin" \o op \o "-" \o MaskStr(m), Bin(op, Arg(StrV(<<97>>), m[1]), Arg(StrV(<<98, 99>>), m[2])), IF op = "+" THEN WStr ELSE WBool, {})
+  \cup {Inst("sbin" \o op \o "-" \o MaskStr(m), Bin(op, ArgT(StrV(<<97>>), m[1], 1), ArgT(StrV(<<98, 99>>), m[2], 2)), IF op = "+" THEN WStr ELSE WBool, {})
      : op \in {"+", "==", "!="}, m \in Masks(2)}
-  \cup {Inst("abin" \o op \o "-" \o MaskStr(m), Bin(op, Arg(ArrLit(<<1>>), m[1]), Arg(ArrLit(xs), m[2])), IF op = "+" THEN WArr(WInt) ELSE WBool, {})
+  \cup {Inst("abin" \o op \o "-" \o MaskStr(m), Bin(op, ArgT(ArrLit(<<1>>), m[1], 1), ArgT(ArrLit(xs), m[2], 2)), IF op = "+" THEN WArr(WInt) ELSE WBool, {})
      : op \in {"+", "=="}, xs \in {<<>>, <<1>>, <<2, 3>>}, m \in Masks(2)}
 
 UnaryInsts ==
-  {Inst("neg" \o ToString(n) \o MaskStr(m), NegE(Arg(IntV(n), m[1])), WInt, {}) : n \in {0, 5, -3}, m \in Masks(1)}
-  \cup {Inst("not" \o ToString(n) \o MaskStr(m), NotE(Arg(IntV(n), m[1])), WInt, {}) : n \in {0, 5, -1}, m \in Masks(1)}
-  \cup {Inst("notb" \o ToString(b) \o MaskStr(m), NotE(Arg(BoolV(b), m[1])), WBool, {}) : b \in BOOLEAN, m \in Masks(1)}
+  {Inst("neg" \o ToString(n) \o MaskStr(m), NegE(ArgT(IntV(n), m[1], 1)), WInt, {}) : n \in {0, 5, -3}, m \in Masks(1)}
+  \cup {Inst("not" \o ToString(n) \o MaskStr(m), NotE(ArgT(IntV(n), m[1], 1)), WInt, {}) : n \in {0, 5, -1}, m \in Masks(1)}
+  \cup {Inst("notb" \o ToString(b) \o MaskStr(m), NotE(ArgT(BoolV(b), m[1], 1)), WBool, {}) : b \in BOOLEAN, m \in Masks(1)}
 
 \* short-circuit operands with an effect on the right
 LogicInsts ==
-  {Inst("and" \o ToString(a) \o ToString(b) \o MaskStr(m), AndE(Arg(BoolV(a), m[1]), Tick(1, WBool, Arg(BoolV(b), m[2]))), WBool, {})
+  {Inst("and" \o ToString(a) \o ToString(b) \o MaskStr(m), AndE(ArgT(BoolV(a), m[1], 1), ArgT(BoolV(b), m[2], 2)), WBool, {})
      : a \in BOOLEAN, b \in BOOLEAN, m \in Masks(2)}
-  \cup {Inst("or" \o ToString(a) \o ToString(b) \o MaskStr(m), OrE(Arg(BoolV(a), m[1]), Tick(1, WBool, Arg(BoolV(b), m[2]))), WBool, {})
+  \cup {Inst("or" \o ToString(a) \o ToString(b) \o MaskStr(m), OrE(ArgT(BoolV(a), m[1], 1), ArgT(BoolV(b), m[2], 2)), WBool, {})
      : a \in BOOLEAN, b \in BOOLEAN, m \in Masks(2)}
-  \cup {Inst("and-fail" \o ToString(a) \o MaskStr(m), AndE(Arg(BoolV(a), m[1]), Bin("==", Bin("/", I(1), Arg(IntV(0), m[2])), I(1))), WBool,
+  \* an effectful / failing left operand in front of a literal right operand must still be evaluated
+  \cup {Inst("and-lhs-fails" \o ToString(b) \o MaskStr(m),
+             AndE(Bin("==", At(ArrE(<<I(1)>>), ArgT(IntV(3), m[1], 1)), I(0)), ArgT(BoolV(b), m[2], 2)), WBool,
+             IF m[1] THEN {"IndexOutOfBounds"} ELSE {}) : b \in BOOLEAN, m \in Masks(2)}
+  \cup {Inst("or-lhs-fails" \o ToString(b) \o MaskStr(m),
+             OrE(Bin("==", Bin("/", I(1), ArgT(IntV(0), m[1], 1)), I(0)), ArgT(BoolV(b), m[2], 2)), WBool,
+             IF m[1] THEN {"ZeroDivision"} ELSE {}) : b \in BOOLEAN, m \in Masks(2)}
+  \cup {Inst("and-fail" \o ToString(a) \o MaskStr(m), AndE(ArgT(BoolV(a), m[1], 1), Bin("==", Bin("/", I(1), ArgT(IntV(0), m[2], 2)), I(1))), WBool,
              IF m[2] THEN {"ZeroDivision"} ELSE {}) : a \in BOOLEAN, m \in Masks(2)}
 
 \* indexing: elements and index literal / hidden
 IndexInsts ==
-  {Inst("at" \o ToString(i) \o MaskStr(m), At(ArrE(<<Arg(IntV(10), m[1]), Arg(IntV(20), m[2]), I(30)>>), Arg(IntV(i), m[3])), WInt,
+  {Inst("at" \o ToString(i) \o MaskStr(m), At(ArrE(<<ArgT(IntV(10), m[1], 1), ArgT(IntV(20), m[2], 2), I(30)>>), ArgT(IntV(i), m[3], 3)), WInt,
         IF m[3] /\ (i > 2 \/ i < -3) THEN {"IndexOutOfBounds"} ELSE {}) : i \in {0, 2, -1, -3, 3, -4}, m \in Masks(3)}
-  \cup {Inst("at-var" \o ToString(i) \o MaskStr(m), At(Arg(ArrLit(<<10, 20, 30>>), m[1]), Arg(IntV(i), m[2])), WInt,
+  \cup {Inst("at-var" \o ToString(i) \o MaskStr(m), At(ArgT(ArrLit(<<10, 20, 30>>), m[1], 1), ArgT(IntV(i), m[2], 2)), WInt,
         IF m[1] /\ m[2] /\ (i > 2 \/ i < -3) THEN {"IndexOutOfBounds"} ELSE {}) : i \in {1, -3, 3, -4}, m \in Masks(2)}
-  \cup {Inst("at-str" \o ToString(i) \o MaskStr(m), At(Arg(StrV(<<97, 98>>), m[1]), Arg(IntV(i), m[2])), WStr,
+  \cup {Inst("at-str" \o ToString(i) \o MaskStr(m), At(ArgT(StrV(<<97, 98>>), m[1], 1), ArgT(IntV(i), m[2], 2)), WStr,
         IF m[1] /\ m[2] /\ (i > 1 \/ i < -2) THEN {"IndexOutOfBounds"} ELSE {}) : i \in {0, -2, 2}, m \in Masks(2)}
-  \cup {Inst("slice" \o MaskStr(m), Slice(Arg(ArrLit(<<10, 20, 30, 40>>), m[1]), Arg(IntV(1), m[2]), Arg(IntV(-1), m[3]), NoneV), WArr(WInt), {})
+  \cup {Inst("slice" \o MaskStr(m), Slice(ArgT(ArrLit(<<10, 20, 30, 40>>), m[1], 1), ArgT(IntV(1), m[2], 2), ArgT(IntV(-1), m[3], 3), NoneV), WArr(WInt), {})
         : m \in Masks(3)}
 
 DataInsts ==
-  {Inst("arr" \o MaskStr(m), ArrE(<<Arg(IntV(1), m[1]), Arg(IntV(2), m[2])>>), WArr(WInt), {}) : m \in Masks(2)}
-  \cup {Inst("tup" \o MaskStr(m), TupE(<<Arg(IntV(1), m[1]), Arg(StrV(<<97>>), m[2])>>), WTup(<<WInt, WStr>>), {}) : m \in Masks(2)}
-  \cup {Inst("tupat" \o MaskStr(m), TupAt(TupE(<<Arg(IntV(1), m[1]), Arg(IntV(2), m[2])>>), 1), WInt, {}) : m \in Masks(2)}
-  \cup {Inst("struct" \o MaskStr(m), Field(StructE(<< <<"a", Arg(IntV(1), m[1])>>, <<"b", Arg(IntV(2), m[2])>> >>), "b"), WInt, {}) : m \in Masks(2)}
-  \cup {Inst("rep" \o ToString(n) \o MaskStr(m), RepE(Arg(IntV(7), m[1]), Arg(IntV(n), m[2])), WArr(WInt),
+  {Inst("arr" \o MaskStr(m), ArrE(<<ArgT(IntV(1), m[1], 1), ArgT(IntV(2), m[2], 2)>>), WArr(WInt), {}) : m \in Masks(2)}
+  \cup {Inst("tup" \o MaskStr(m), TupE(<<ArgT(IntV(1), m[1], 1), ArgT(StrV(<<97>>), m[2], 2)>>), WTup(<<WInt, WStr>>), {}) : m \in Masks(2)}
+  \cup {Inst("tupat" \o MaskStr(m), TupAt(TupE(<<ArgT(IntV(1), m[1], 1), ArgT(IntV(2), m[2], 2)>>), 1), WInt, {}) : m \in Masks(2)}
+  \cup {Inst("struct" \o MaskStr(m), Field(StructE(<< <<"a", ArgT(IntV(1), m[1], 1)>>, <<"b", ArgT(IntV(2), m[2], 2)>> >>), "b"), WInt, {}) : m \in Masks(2)}
+  \cup {Inst("rep" \o ToString(n) \o MaskStr(m), RepE(ArgT(IntV(7), m[1], 1), ArgT(IntV(n), m[2], 2)), WArr(WInt),
              IF m[2] /\ n < 0 THEN {"NegativeLength"} ELSE {}) : n \in {2, 0, -1}, m \in Masks(2)}
-  \cup {Inst("nested" \o MaskStr(m), Bin("+", Bin("*", Arg(IntV(2), m[1]), Arg(IntV(3), m[2])), At(ArrE(<<Arg(IntV(4), m[3]), I(5)>>), Arg(IntV(1), m[4]))), WInt, {})
+  \cup {Inst("nested" \o MaskStr(m), Bin("+", Bin("*", ArgT(IntV(2), m[1], 1), ArgT(IntV(3), m[2], 2)), At(ArrE(<<ArgT(IntV(4), m[3], 3), I(5)>>), ArgT(IntV(1), m[4], 4))), WInt, {})
         : m \in Masks(4)}
-  \cup {Inst("nested-fail" \o MaskStr(m), Bin("+", Arg(IntV(1), m[1]), Bin("/", Arg(IntV(6), m[2]), Bin("-", Arg(IntV(2), m[3]), Arg(IntV(2), m[4])))), WInt,
+  \cup {Inst("nested-fail" \o MaskStr(m), Bin("+", ArgT(IntV(1), m[1], 1), Bin("/", ArgT(IntV(6), m[2], 2), Bin("-", ArgT(IntV(2), m[3], 3), ArgT(IntV(2), m[4], 4)))), WInt,
              IF m[3] /\ m[4] THEN {"ZeroDivision"} ELSE {}) : m \in Masks(4)}
 
 \* ---------------------------------------------------------------- statement-level templates (whole programs)
